@@ -181,13 +181,27 @@ Definition s_take_max : pystr := of_ascii "take_max"%string.
 Lemma enum_translators_agree : subset schema_actions merge_action_enum = true /\ subset merge_action_enum schema_actions = true.
 Proof. split; vm_compute; reflexivity. Qed.
 
-(* pinned code: take_max is emitted but is not in the published enum; it is the only such action *)
-Lemma emitted_not_subset_schema : mem s_take_max py_emitted = true /\ mem s_take_max schema_actions = false.
-Proof. split; vm_compute; reflexivity. Qed.
+(* everything emitted is in the published enum except possibly take_max (true of the pinned schema and of the fixed one) *)
 Lemma emitted_subset_schema_but_take_max : subset py_emitted (s_take_max :: schema_actions) = true.
 Proof. vm_compute. reflexivity. Qed.
 
-(* whichever way the schema reads: the emitted vocabulary is inside the enum, or take_max is the one action outside *)
+(* a failed inclusion has a witness *)
+Lemma not_subset_witness l m : subset l m = false -> exists a, mem a l = true /\ mem a m = false.
+Proof.
+  unfold subset. induction l as [|x l IH]; simpl; [ discriminate | ].
+  destruct (mem x m) eqn:E; simpl.
+  - intros H. destruct (IH H) as (a & Ha & Hm). exists a. split; auto.
+    unfold mem in *. simpl. rewrite Ha. apply orb_true_r.
+  - intros _. exists x. split; auto. unfold mem. simpl. rewrite str_eqb_refl. reflexivity.
+Qed.
+
+(* whichever way the schema reads: the emitted vocabulary is inside the enum, or there is an emitted action outside it
+   and take_max is the only such action *)
 Definition vocabulary_statement : Prop :=
   if subset py_emitted schema_actions then subset py_emitted schema_actions = true
   else (exists a, mem a py_emitted = true /\ mem a schema_actions = false) /\ subset py_emitted (s_take_max :: schema_actions) = true.
+Lemma vocabulary_holds : vocabulary_statement.
+Proof.
+  unfold vocabulary_statement. destruct (subset py_emitted schema_actions) eqn:E; [ reflexivity | ].
+  split; [ apply not_subset_witness; exact E | exact emitted_subset_schema_but_take_max ].
+Qed.
